@@ -26,6 +26,10 @@ func main() {
 		for r := *from; r < *from+*runs; r++ {
 			runAsync(w, *seed, r, *steps)
 		}
+	case "open":
+		for r := *from; r < *from+*runs; r++ {
+			runOpen(w, *seed, r, *steps)
+		}
 	default:
 		fmt.Fprintln(os.Stderr, "unknown driver", drv)
 		os.Exit(2)
